@@ -1,0 +1,18 @@
+//go:build verif
+
+// Lock-discipline contracts for the broker handler (property C41; comment-only, read by /verif/govc).
+// This file contains no executable code.
+
+package main
+
+// handler: the partition-log table is guarded by logMu, the auth-log rate table by authLogMu; everything else is
+// configuration set before the handler serves requests.
+//@ type handler
+//@   protected_by logMu: logs
+//@   protected_by authLogMu: authLogLast
+//@   sync: logMu, logInit, authLogMu
+//@   immutable: apiVersions, store, s3, cache, logConfig, coordinator, leaseManager, groupLeaseManager, s3Health, s3Namespace, brokerInfo, logger, autoCreateTopics, autoCreatePartitions, allowAdminAPIs, traceKafka, produceRate, fetchRate, produceLatency, consumerLag, startTime, cpuTracker, cacheSize, readAhead, segmentBytes, flushInterval, flushOnAck, adminMetrics, authorizer, authMetrics, s3sem
+//@   complete
+
+//@ func newHandler
+//@   returns_fresh
